@@ -20,27 +20,38 @@ var Epoch = time.Date(2000, 1, 1, 0, 0, 0, 0, time.UTC)
 // synctest becomes a harness error (the case leaked a goroutine, which is the
 // harness's fault, not the system's).
 func Bubble(t *testing.T, f func() error) (err error) {
-	defer func() {
-		if r := recover(); r != nil {
-			if _, ok := r.(failNow); ok {
-				panic(r)
-			}
-			s := fmt.Sprint(r)
-			if strings.Contains(s, "deadlock: main bubble goroutine has exited") {
-				err = fmt.Errorf("harness: bubble leaked goroutines: %s", s)
-				return
-			}
-			err = Violationf("panic", "%v\n%s", r, debug.Stack())
-		}
-	}()
-	synctest.Test(t, func(t *testing.T) {
+	// synctest.Test calls t.FailNow (runtime.Goexit) when the bubble's inner
+	// test has been marked failed — which the testing package does by itself
+	// when the race detector has reported something during the bubble.  Run
+	// it on its own goroutine so that this only ends that goroutine and the
+	// kernel can go on and report.
+	done := make(chan struct{})
+	go func() {
+		defer close(done)
 		defer func() {
 			if r := recover(); r != nil {
+				if _, ok := r.(failNow); ok {
+					err = fmt.Errorf("harness: rapid assertion inside a bubble")
+					return
+				}
+				s := fmt.Sprint(r)
+				if strings.Contains(s, "deadlock: main bubble goroutine has exited") {
+					err = fmt.Errorf("harness: bubble leaked goroutines: %s", s)
+					return
+				}
 				err = Violationf("panic", "%v\n%s", r, debug.Stack())
 			}
 		}()
-		err = f()
-	})
+		synctest.Test(t, func(t *testing.T) {
+			defer func() {
+				if r := recover(); r != nil {
+					err = Violationf("panic", "%v\n%s", r, debug.Stack())
+				}
+			}()
+			err = f()
+		})
+	}()
+	<-done
 	return err
 }
 
